@@ -21,6 +21,8 @@ func checkC14(p *Prog, r *Result, tier string) {
 	r.Rule("C14.R6", "the only object a write API retains is the schema's type witness, and it is used for its type only: it never reaches a hook other than UUID, the serialiser or the clone function", 1)
 	r.Rule("C14.R7", "an empty container is not a nil one: the deep clone never decides a branch on reflect.Value.Len() == 0 (its early exit is a nil test), so empty slices and maps are cloned as empty, not as nil", 1)
 	checkCloneEmptiness(p, r, "C14.R7")
+	r.Rule("C14.R8", "what the encoder serialises is what the clone deep-copies: the struct arm of the deep clone also goes through embedded (anonymous) struct fields whose type is not exported, whose exported fields are promoted and serialised (it reads reflect.StructField.Anonymous to find them)", 1)
+	checkCloneEmbedded(p, r, "C14.R8")
 	r.Rule("C14.R5", "fresh objects on reads: the iterator allocates a new value per element before filling it", 1)
 	r.NotDecided = []string{"'a cached read equals a file round trip' (value equality of clone vs JSON: nil vs empty containers, monotonic clock, unexported fields)", "unexported pointer fields are shared by documented design (comment in object.go)"}
 	a := p.A
@@ -359,6 +361,42 @@ func helperRecursion(h, cv *ssa.Function) (recurses, conditional bool) {
 		}
 	}
 	return
+}
+
+// checkCloneEmbedded: the clone looks at StructField.Anonymous.
+func checkCloneEmbedded(p *Prog, r *Result, rule string) {
+	cv := p.FuncByName("cloneValue")
+	if cv == nil {
+		r.Report(rule, "cloneValue", "embedded fields", Undecided, "recursive clone not found", "", nil, false)
+		return
+	}
+	reads := false
+	for _, f := range calleesWithin(p, cv, 2) {
+		for _, b := range f.Blocks {
+			for _, in := range b.Instrs {
+				var st *types.Struct
+				idx := -1
+				switch v := in.(type) {
+				case *ssa.Field:
+					st, _ = v.X.Type().Underlying().(*types.Struct)
+					idx = v.Field
+				case *ssa.FieldAddr:
+					if pt, ok := v.X.Type().Underlying().(*types.Pointer); ok {
+						st, _ = pt.Elem().Underlying().(*types.Struct)
+					}
+					idx = v.Field
+				}
+				if st != nil && idx >= 0 && idx < st.NumFields() && st.Field(idx).Name() == "Anonymous" && st.Field(idx).Pkg() != nil && st.Field(idx).Pkg().Path() == "reflect" {
+					reads = true
+				}
+			}
+		}
+	}
+	if reads {
+		r.Report(rule, FuncName(cv), "embedded struct fields are gone through", Discharged, "", p.Pos(cv.Pos()), nil, true)
+	} else {
+		r.Report(rule, FuncName(cv), "embedded struct fields are gone through", Violated, "the deep clone only recurses into exported struct fields: the exported fields promoted from an embedded struct of an unexported type are serialised but copied shallowly, so their slices, maps and pointers are shared between the caller's object and the cached one", p.Pos(cv.Pos()), nil, true)
+	}
 }
 
 // checkCloneEmptiness: the deep clone must tell an empty container from a nil one.
